@@ -116,14 +116,32 @@ theorem idkUpdate_fresh (b : Bundle) (n : Node) (hl : lookupNat n.idk (b.src, b.
   unfold idkUpdate
   simp only [hl, hb]
 
-/-- The sequence-number assignment of a bundle whose (source, time) pair is new and whose sequence
-number is 0 leaves the bundle as it is; only the IdKeeper changes (if the assignment happens here). -/
+/-- The loop of `SendBundle` does nothing for a bundle whose ID is not in the store. -/
+theorem idkSkip_absent (fuel : Nat) (b : Bundle) (n : Node) (h : n.store.get b.key = none) :
+    idkSkip fuel b n = (b, n) := by
+  cases fuel with
+  | zero => rfl
+  | succ f => unfold idkSkip; simp [h]
+
+/-- `SendBundle`'s assignment for a new (source, time) pair, sequence number 0 and a free ID. -/
+theorem assignSeq_fresh (b : Bundle) (n : Node) (hl : lookupNat n.idk (b.src, b.ts) = none) (hs : b.seq = 0)
+    (hfresh : n.store.get b.key = none) :
+    assignSeq b n = (b, n.setIdk (setNat n.idk (b.src, b.ts) 0)) := by
+  unfold assignSeq
+  simp only [idkUpdate_fresh b n hl hs]
+  split
+  · exact idkSkip_absent _ _ _ (by simpa using hfresh)
+  · rfl
+
+/-- The sequence-number assignment of a bundle whose (source, time) pair is new, whose sequence
+number is 0 and whose ID is free leaves the bundle as it is; only the IdKeeper changes (if the assignment
+happens here). -/
 theorem seqStep (c : Bool) (b : Bundle) (n : Node)
-    (hidk : lookupNat n.idk (b.src, b.ts) = none ∧ b.seq = 0) :
-    ∃ x, (if c = true then idkUpdate b n else (b, n)) = (b, n.setIdk x) ∧ (c = false → x = n.idk) := by
+    (hidk : lookupNat n.idk (b.src, b.ts) = none ∧ b.seq = 0) (hfresh : n.store.get b.key = none) :
+    ∃ x, (if c = true then assignSeq b n else (b, n)) = (b, n.setIdk x) ∧ (c = false → x = n.idk) := by
   cases c
   · exact ⟨n.idk, rfl, fun _ => rfl⟩
-  · exact ⟨_, by simp only [if_true]; exact idkUpdate_fresh b n hidk.1 hidk.2, fun h => by cases h⟩
+  · exact ⟨_, by simp only [if_true]; exact assignSeq_fresh b n hidk.1 hidk.2 hfresh, fun h => by cases h⟩
 
 theorem seqStep' (c : Bool) (b : Bundle) (n : Node)
     (hidk : c = true ∨ (lookupNat n.idk (b.src, b.ts) = none ∧ b.seq = 0)) :
@@ -225,12 +243,12 @@ theorem subStep_idk (k : Key) (b : Bundle) (n : Node) (x : List ((Eid × Nat) ×
     · left; simpa [he] using hs
 
 theorem seqStep_x (c : Bool) (b : Bundle) (n : Node)
-    (hidk : lookupNat n.idk (b.src, b.ts) = none ∧ b.seq = 0) :
-    ∃ x, (if c = true then idkUpdate b n else (b, n)) = (b, n.setIdk x) ∧ (c = false → x = n.idk) ∧
+    (hidk : lookupNat n.idk (b.src, b.ts) = none ∧ b.seq = 0) (hfresh : n.store.get b.key = none) :
+    ∃ x, (if c = true then assignSeq b n else (b, n)) = (b, n.setIdk x) ∧ (c = false → x = n.idk) ∧
       (x = n.idk ∨ x = setNat n.idk (b.src, b.ts) 0) := by
   cases c
   · exact ⟨n.idk, rfl, fun _ => rfl, Or.inl rfl⟩
-  · exact ⟨_, by simp only [if_true]; exact idkUpdate_fresh b n hidk.1 hidk.2, (fun h => by cases h), Or.inr rfl⟩
+  · exact ⟨_, by simp only [if_true]; exact assignSeq_fresh b n hidk.1 hidk.2 hfresh, (fun h => by cases h), Or.inr rfl⟩
 
 theorem seqStep_x' (c : Bool) (b : Bundle) (n : Node)
     (hidk : c = true ∨ (lookupNat n.idk (b.src, b.ts) = none ∧ b.seq = 0)) :
@@ -266,7 +284,7 @@ theorem sendBundle_kept (env : Env) (b : Bundle) (n : Node) (hfix : n.cfg.holdFi
     OkSent (sendBundle env b n).2 b ∨ Holds (sendBundle env b n).1 b (calcExpires n.cfg n.now b) := by
   unfold sendBundle
   simp only
-  rcases seqStep n.cfg.seqFirst b n hidk with ⟨x, hx, hx0⟩
+  rcases seqStep n.cfg.seqFirst b n hidk hfresh with ⟨x, hx, hx0⟩
   rw [hx]
   simp only
   -- the descriptor of a new bundle; the first Sync pushes it
@@ -303,11 +321,11 @@ theorem sendBundle_kept (env : Env) (b : Bundle) (n : Node) (hfix : n.cfg.holdFi
 
 /-- A submission only touches the item of its bundle ID. -/
 theorem sendBundle_kstep (env : Env) (b : Bundle) (n : Node) (w : WF n)
-    (hidk : lookupNat n.idk (b.src, b.ts) = none ∧ b.seq = 0) :
+    (hidk : lookupNat n.idk (b.src, b.ts) = none ∧ b.seq = 0) (hfresh : n.store.get b.key = none) :
     SubStep b.key b n (sendBundle env b n).1 := by
   unfold sendBundle
   simp only
-  rcases seqStep_x n.cfg.seqFirst b n hidk with ⟨x, hx, hx0, hxx⟩
+  rcases seqStep_x n.cfg.seqFirst b n hidk hfresh with ⟨x, hx, hx0, hxx⟩
   rw [hx]
   simp only
   unfold newDescFromBundle
